@@ -159,6 +159,23 @@ CHECKS = {
              "CPython generator semantics are the model's cursor rules.",
         technique="Coq proof over tombstone-list model; vm_compute replay of schedules against DoublyLinkedSet/Graph",
         design_ref="§6 C11, §10"),
+    "C13": dict(
+        level="proof",
+        text="21 theorems, none partial, over a heap model with separate cells for every mutable sub-object the cloner shares or "
+             "copies (values, nodes, graphs, shapes, types, metadata dicts, meta stores, Attr cells; tensors immutable): a clone "
+             "only allocates (no existing cell is written, also when rejected); every cell reachable from the clone is fresh "
+             "except shared non-graph Attr cells, shallow meta objects, and explicitly allowed outer-scope values; closedness "
+             "for graphs whose values are defined before use; the clone's canonical serialization equals the original's; for "
+             "each of 19 setters and any edit history on one copy the other copy's cells and serialization are unchanged "
+             "(C13_independent*); a functionalized pass leaves its input unchanged. The unsorted + allow_outer_scope_values "
+             "defect is refuted with a vm_compute witness (known finding). Tie: models built through the public API are "
+             "cloned by the real code through all four entry points, the full object graph (identity -> ids) is dumped and "
+             "the model's clone must be heap-isomorphic inside Coq (same sharing structure); edit histories applied on both "
+             "sides; canonical-serialization projection compared with to_proto.",
+        note=TRUST + "Modelled, not verified: back-pointers/name authority (C01), tensor objects' own fields (known finding "
+             "tensor-rename-alias), in-place mutation of shared Attr objects; Iso.v (case-file support) is trusted harness.",
+        technique="Coq proof over heap model of the cloner; vm_compute heap-isomorphism correspondence with clone() + edit histories",
+        design_ref="§6 C13, §10"),
     "C14": dict(
         level="proof",
         text="Proved in Coq: the identity rule for every pass term (primitive, Sequential, PassManager, functionalize), the "
@@ -231,10 +248,10 @@ CHECKS = {
         design_ref="§6 C18, §10"),
     "C19": dict(
         level="proof",
-        text="14 theorems, none partial, for unbounded histories of the 12 annotation/edit ops: DevInv holds in every reachable "
+        text="16 theorems, none partial, for unbounded histories of the annotation/edit ops over nested scopes (main graph, function, subgraph bodies): DevInv holds in every reachable "
              "state; DevInv and non-empty names imply the library's own check reports nothing; annotations are dropped "
              "exactly when a value leaves the node; every rejected request leaves the state unchanged; serialized references "
-             "use current names; round trip at IR>=11 is the identity on DevInv states, below 11 drops everything. Tie: "
+             "use current names; deserialization resolves names through the scope stack to the very objects, so a round trip at IR>=11 is the identity on DevInv states for arbitrary nesting (captured values, shadowing). Tie: "
              "histories on real objects (main graph + function) with clones and to_proto/from_proto round trips, "
              "observations after every op compared inside Coq; oracle through the public API.",
         note=TRUST + "Reading decisions as ops_ok (configuration registered at request time, device indices in range, cascade "
